@@ -538,6 +538,18 @@ def run(ctx: Ctx) -> int:
                 if rng.random() < 0.5:
                     out.append(f"{['X_ERROR', 'Z_ERROR', 'Y_ERROR'][int(rng.integers(0, 3))]}({int(rng.integers(0, 2))}) {int(rng.integers(0, nq))}")
             check_shots(ctx, "\n".join(out[:-1] + [out[-1]]) if out[-1].startswith("M ") else "\n".join(out), f"clifford-dense-noise-{nq}q", 4)
+    # more than 64 independent deterministic error parameters in one circuit (the reduced error basis is wider than a machine word)
+    for n in ([70, 100] if quick else [64, 65, 70, 100, 130, 200]):
+        for chained in (False, True):
+            if time.time() > t_end + 150:
+                break
+            allq = " ".join(map(str, range(n)))
+            lines = ["R " + allq] + [f"{['X_ERROR', 'Y_ERROR'][int(rng.integers(0, 2))]}({int(rng.random() < 0.6)}) {i}" for i in range(n)]
+            if chained:
+                lines += [f"CX {i} {i + 1}" for i in range(n - 1)]
+            else:
+                lines += ["CX " + " ".join(f"{i} {i + 1}" for i in range(0, n - 1, 2))]
+            check_shots(ctx, "\n".join(lines + ["M " + allq]), f"wide-deterministic-noise-{n}", 2)
     nm = check_mechanisms(ctx, rng, 4 if quick else 60) if time.time() < t_end + 120 else 0
     ctx.cov["mechanisms_checked"] = nm
     if ctx.broken and not ctx.violations:
